@@ -24,6 +24,7 @@ type Env struct {
 	cells    bool            // resolve names to the current value of local variables first
 	fd       string
 	loopHead *ssa.BasicBlock
+	noRename bool
 }
 
 func (e *Env) with(name string, v *Val) *Env {
@@ -194,6 +195,15 @@ func (e *Env) ident(id *ast.Ident) *Val {
 			return c.Load(e.st, p)
 		case *ssa.NamedConst:
 			return c.constVal(x.Value)
+		}
+	}
+	// a variable that was renamed since the contract was written (see locals.go)
+	if !e.noRename {
+		if nn := c.prog.renamedTo(e.fn, name); nn != "" {
+			c.prog.noteRename(e.fn, name, nn)
+			ne := *e
+			ne.noRename = true
+			return ne.ident(&ast.Ident{Name: nn})
 		}
 	}
 	fail("unknown identifier %q", name)
